@@ -15,7 +15,7 @@ impl Property for C02 {
             Segment::random("small", tier.pick(100_000, 1_000_000), &[0], 8, 400),
             Segment::random("medium", tier.pick(50_000, 500_000), &[1], 8, 400),
             Segment::random("sparse-large", tier.pick(10_000, 100_000), &[2], 8, 400),
-            Segment::enumerated("huge(>2^32 bits)", tier.pick(4, 24), &[9]),
+            Segment::enumerated("huge(>2^32 bits)", tier.pick(10, 40), &[9]),
         ]
     }
     fn rule(&self) -> &'static str {
@@ -28,7 +28,7 @@ impl Property for C02 {
             b[..rest.len().min(8)].copy_from_slice(&rest[..rest.len().min(8)]);
             let j = u64::from_le_bytes(b);
             cx.hash(&("huge", j));
-            cx.describe(|| format!("huge case {j}: 2^32+delta bits, pattern {}", j % 3));
+            cx.describe(|| format!("huge case {j}: more than 2^32 bits, pattern {}", j % 5));
             return crate::huge::select_case(cx, j);
         }
         let cap = match mode % 3 {
